@@ -178,8 +178,23 @@ def keyword_in_block_cases():
                 out.append(('act', p.pre_parse('SEC 1.\n' + '\n'.join('  ' + l for l in (c % line).split('\n') if l) + '\n')))
     return out
 
+def edge_heading_cases():
+    """num / heading lines at their edges: a dash with nothing after it, nothing before it, only blanks around it, a num that is only
+    punctuation, a heading of one inline - on every construct that takes `num - heading`: every optional key is either a list of nodes /
+    a string or absent, never None or empty junk"""
+    p = impl.parser()
+    out = []
+    heads = ['1 -', '1. -', ' -', '-', '- ', ' - ', '1 - ', '1 -  ', '- h', ' - h', '1 - **b**', '1 - {{^x}}', '(a) - -', '- - -', '1 -x', '1- x', '.', '( ) -', '1 - h -', '\\- -']
+    kws = [('act', 'PART%s\n  text\n'), ('act', 'SEC%s\n'), ('doc', 'ITEMS\n  ITEM%s\n    text\n'), ('debate', 'DEBATESECTION%s\n  text\n'),
+           ('debate', 'DEBATESECTION\n  SPEECH%s\n    FROM a\n    b\n'), ('act', 'CHAPTER%s\n  SUBHEADING\n  SEC 1\n    x\n'), ('doc', 'SCHEDULE%s\n  x\n'),
+           ('act', 'PART 1\n  SUBHEADING%s\n  x\n'), ('act', 'CROSSHEADING%s\n'), ('act', 'PREFACE\n  LONGTITLE%s\nBODY\n  x\n')]
+    for root, shape in kws:
+        for h in heads:
+            out.append((root, p.pre_parse(shape % (' ' + h))))
+    return out
+
 def correspondence(ctx):
-    cs = cases(ctx, ctx.n(700, 40000)) + keyword_in_block_cases()
+    cs = cases(ctx, ctx.n(700, 40000)) + keyword_in_block_cases() + edge_heading_cases()
     ctx._cases = cs
     stages.stage_dict(ctx, cs)
 
